@@ -147,6 +147,54 @@ struct StateGenOpts {
 
 // Well-formed random state: every field within its width, accumulators sign-extended from bit 39,
 // lp == (bcn != 0), bcn <= 4, prpage == 0, mod0_unk_const == 1.
+// Relations between independent registers that uniform and boundary-biased draws never produce, but real programs do:
+//   * two registers of the same width holding the SAME value (x0 == x1, y0 == y1, a pointer equal to another ...)
+//   * a product register that is consistent with its factor registers (the state right after a multiply)
+// Applied to a fraction of the generated states; only plain data fields are touched.
+inline void BiasRelations(Rng& g, CaseState& s) {
+    auto& f = Fields();
+    auto idx = [&](const char* n) { return (size_t)FieldIndex(n); };
+    if (g.chance(1, 4)) { // one or two pairs of equal 16-bit registers
+        static const char* pool16[] = {"x[0]", "x[1]", "y[0]", "y[1]", "r[0]", "r[1]", "r[2]", "r[3]", "r[4]", "r[5]", "r[6]", "r[7]",
+                                       "sv", "mixp", "stepi0", "stepj0", "p0h_cbs"};
+        unsigned pairs = 1 + (unsigned)g.below(2);
+        for (unsigned k = 0; k < pairs; ++k) {
+            if (g.chance(1, 2)) { // both multiplier units see the same factors
+                s.v[idx("x[1]")] = s.v[idx("x[0]")];
+                s.v[idx("y[1]")] = s.v[idx("y[0]")];
+            } else {
+                size_t a = idx(g.pick(pool16)), b = idx(g.pick(pool16));
+                s.v[b] = s.v[a];
+            }
+        }
+    }
+    if (g.chance(1, 4)) { // accumulator halves / whole accumulators equal
+        static const char* acc[] = {"a[0]", "a[1]", "b[0]", "b[1]"};
+        size_t a = idx(g.pick(acc)), b = idx(g.pick(acc));
+        if (g.chance(1, 2))
+            s.v[b] = s.v[a];
+        else { // high half == low half
+            u64 lo = s.v[a] & 0xFFFF;
+            s.v[a] = mask_width((s.v[a] & ~0xFFFF0000ull) | (lo << 16), 40);
+        }
+    }
+    if (g.chance(1, 4)) { // product registers as a signed x signed multiply of the current factors would leave them
+        for (int u = 0; u < 2; ++u) {
+            if (!g.chance(2, 3))
+                continue;
+            s64 x = (s16)s.v[idx(u ? "x[1]" : "x[0]")], y = (s16)s.v[idx(u ? "y[1]" : "y[0]")];
+            if (g.chance(1, 4)) { // unsigned x unsigned
+                x = (u16)x;
+                y = (u16)y;
+            }
+            s64 p = x * y;
+            s.v[idx(u ? "p[1]" : "p[0]")] = (u32)p;
+            s.v[idx(u ? "pe[1]" : "pe[0]")] = (u64)((p >> 32) & 1);
+        }
+    }
+    (void)f;
+}
+
 inline CaseState RandomState(Rng& g, const StateGenOpts& o = {}) {
     CaseState s;
     auto& f = Fields();
@@ -165,6 +213,7 @@ inline CaseState RandomState(Rng& g, const StateGenOpts& o = {}) {
     }
     s["prpage"] = 0;
     s["mod0_unk_const"] = 1;
+    BiasRelations(g, s);
     if (g.chance(1, 3)) { // shift-amount register: boundary amounts of the 40-bit shifter
         static const s64 amounts[] = {0, 1, 2, 15, 16, 17, 31, 32, 33, 38, 39, 40, 41, 47, 48, 63, 64, 127, 128, 0x7FFF};
         s64 a = g.pick(amounts);
